@@ -40,7 +40,7 @@ PROBES = ["overloads_same_param_names", "optional_param_member", "class_missing_
           "unprintable_followed_by_hexdigit", "templated_class_documented", "no_docs_at_all",
           "bindings_with_marker", "bindings_expected_empty", "more_bindings_than_documented_overloads",
           "xml_member_has_extra_optional_param", "overloads_with_permuted_param_names",
-          "literals_crosschecked_with_gpp", "binding_after_fault_on_its_file"]
+          "literals_crosschecked_with_gpp", "binding_after_fault_on_its_file", "text_longer_than_512"]
 
 
 def batches(tier):
@@ -86,11 +86,25 @@ PIECES = ["compute the value", "returns x", "see also", "a", "f", "0", "9", "abc
           "]]>", "*/", "//", "R\"(", ")\"", "\r", "\u009f", "\u00a0f"]
 
 
+ESCAPE_DENSE = ["\\", "\"", "\n", "\t", "\r", "\u2028", "\u0085", "\u007f", "?", "\u00e9", "x", "\\n", "%"]
+
+
 def gen_text(tape, marker):
-    n = tape.small(6, "text-len", p=0.7)
     parts = [marker]
-    for _ in range(n):
-        parts.append(PIECES[tape.choose(len(PIECES), "piece")])
+    if tape.bool(0.08, "long-text"):
+        # a long description (hundreds to thousands of characters) dense in characters that need escaping:
+        # whatever is done per chunk, per line or per N characters meets an escape sequence at its edge
+        n = 40 + tape.choose(700, "long-text-len")
+        stride = 1 + tape.choose(4, "long-text-stride")
+        for k in range(n):
+            if k % stride == 0:
+                parts.append(ESCAPE_DENSE[tape.choose(len(ESCAPE_DENSE), "dense-piece")])
+            else:
+                parts.append("abcdefghij"[k % 10])
+    else:
+        n = tape.small(6, "text-len", p=0.7)
+        for _ in range(n):
+            parts.append(PIECES[tape.choose(len(PIECES), "piece")])
     s = "".join(parts)
     return "".join(ch for ch in s if DX.xml_legal(ch))
 
@@ -159,6 +173,26 @@ def decode_cpp_literal(body):
     return bytes(out)
 
 
+def decode_literal(src):
+    """src: the text between the first opening and the last closing quote of a run of adjacent literals"""
+    out = b""
+    i = 0
+    while True:
+        e = scan_literal_end('"' + src[i:] + '"', 0)
+        piece = src[i:i + e - 1]
+        out += decode_cpp_literal(piece)
+        i += e - 1
+        if i >= len(src):
+            return out
+        # src[i] is the closing quote of this piece: whitespace and the next opening quote follow
+        k = i + 1
+        while k < len(src) and src[k] in " \t\n":
+            k += 1
+        if k >= len(src) or src[k] != '"':
+            raise LiteralError("junk after the closing quote: %r" % src[i:i + 20])
+        i = k + 1
+
+
 def scan_literal_end(s, start):
     """s[start] is the opening quote; return index of the closing quote"""
     i = start + 1
@@ -187,6 +221,19 @@ def align_insertions(ref, act):
             e = scan_literal_end(act, j + 2)
             if e < 0:
                 raise ValueError("unterminated inserted literal at offset %d: %r" % (j, act[j:j + 60]))
+            # adjacent string literals are one literal to the compiler (translation phase 6): keep the whole
+            # run `a" "b` as the literal's source text; decode_literal() decodes piece by piece
+            while True:
+                k = e + 1
+                while k < len(act) and act[k] in " \t\n":
+                    k += 1
+                if k < len(act) and act[k] == '"':
+                    e2 = scan_literal_end(act, k)
+                    if e2 < 0:
+                        raise ValueError("unterminated inserted literal at offset %d: %r" % (k, act[k:k + 60]))
+                    e = e2
+                    continue
+                break
             lits.append(act[j + 3:e])
             j = e + 1
             continue
@@ -302,6 +349,9 @@ def gen_case(tape, batch):
     if not any(m.get("marker") for e in docs for m in e["members"]):
         pr["no_docs_at_all"] = 1
     alltext = "".join((m.get("brief") or "") + (m.get("detailed") or "") for e in docs for m in e["members"])
+    if any(len((m.get("brief") or "")) > 512 or len((m.get("detailed") or "")) > 512
+           for e in docs for m in e["members"]):
+        pr["text_longer_than_512"] = 1
     if '"' in alltext:
         pr["text_with_quotes"] = 1
     if "\\" in alltext:
@@ -536,7 +586,7 @@ def judge(case, calls, lits, w):
         doc = c.get("ret", "")
         # ---- D4: escaping ----------------------------------------------------------
         try:
-            got = decode_cpp_literal(lit)
+            got = decode_literal(lit)
             if got != doc.encode("utf-8"):
                 cls = "wrong-bytes"
                 if any(0x7f <= ord(ch) <= 0xff for ch in doc) and "\\x" in lit:
